@@ -13,11 +13,12 @@ import math
 from fractions import Fraction
 
 from harness import core
+from harness import mc_gen
 from harness import mc_util as mu
 
-GEN = []
-EXTRACT_FILES = ["X02"]
-DRIVERS = ["x02"]
+GEN = list(mc_gen.GEN)
+EXTRACT_FILES = ["X02"] + mc_gen.EXTRACT
+DRIVERS = ["x02"] + mc_gen.DRIVER
 RULE = ("random image pairs 3..14 x 4..18 (mono / 2-3 bands with band selection; random, few-grey-level and "
         "nearly flat radiometry; right = shifted left + noise or independent), masks with valid/nodata/invalid "
         "cells (40% next to a border), intervals: one point, all negative, all positive, wider than the image, "
@@ -25,7 +26,13 @@ RULE = ("random image pairs 3..14 x 4..18 (mono / 2-3 bands with band selection;
         "{3,5}) x subpix {1,2,4}; plus images smaller than the window, 1..w+2 rows/columns (census / zncc return "
         "early there: all NaN expected, any exception is a violation). One case = one cost volume (every "
         "cost compared). Non-trivial: the volume holds both NaN and non-NaN costs; distinct by (measure, "
-        "window, subpix, size, interval/grid, masks present, hash of the images)")
+        "window, subpix, size, interval/grid, masks present, hash of the images). "
+        "PLUS the generated-code cases of harness/mc_gen.py (counted in the same totals; see stats gen_*): every "
+        "(subpix 1/2/4, left width 1..7, right width in {same, -1, +2}, disparity up to 3 columns beyond the image) "
+        "for the real point_interval against the extracted generated one (non-trivial: non-empty range), 40 random "
+        "grid pairs for get_min_max_from_grid, and every sample of the real axis of 6 (subpix, width) settings for the "
+        "translated statements of the four loops executed on real objects (distinct by function, subpix, width, "
+        "disparity)")
 ASSUMES = [
     "integer radiometry (|v| <= 1023 sad/census, <= 255 zncc, <= 60 ssd so that every float32 intermediate is "
     "exact); float32 rounding on real-valued radiometry is outside the model",
@@ -37,8 +44,9 @@ ASSUMES = [
     "exactly; the 1e-15 relative variance guard of compute_std_raster coincides with 'variance = 0' on "
     "integer radiometry",
 ]
+ASSUMES += mc_gen.ASSUMES
 TRUSTED = ["numpy slicing / as_strided / np.sum / nancumsum semantics as modelled in Model/MatchingCost.v "
-           "(validated by the correspondence on every run)"]
+           "(validated by the correspondence on every run)"] + mc_gen.TRUSTED
 
 
 def wire(case):
@@ -149,9 +157,17 @@ SUPPORTED = list(mu.MEASURES)
 def run(ctx):
     quick = ctx.tier == "quick"
     model = core.Model("x02")
+    ctx.gen_obligations = list(mc_gen.OBLIGATIONS)
+    if ctx.replay_case is not None and ctx.replay_case.get("kind") == "point_interval":
+        mc_gen.replay_one(ctx, ctx.replay_case)
+        return
+    if ctx.replay_case is not None and ctx.replay_case.get("kind") in ("statements", "min_max"):
+        mc_gen.run(ctx)        # statement-level cases are cheap: the whole generated-code correspondence is re-run
+        return
     if ctx.replay_case is not None:
         cases = [ctx.replay_case]
     else:
+        mc_gen.run(ctx)
         cases = gen_cases(ctx, 260 if quick else 4000)
     for start in range(0, len(cases), 200):
         run_chunk(ctx, model, cases[start:start + 200])
